@@ -19,10 +19,19 @@ ASSUMPTIONS = ['A1/A2 as for C01', 'os.path.join keeps an absolute second argume
 MINIMUM = {'R02.1': 3, 'R02.2': 4, 'R02.3': 2, 'R02.4': 2}
 
 
+
+
+
+
 # rules of sibling properties that are necessary conditions of this one too
 # (evaluated by the sibling module on the same graphs, reported under this property)
-ALSO = {'C10': {'R10.4': 'a freshly trashed payload must not be purged as an orphan before it can be '
-                  'restored'}}
+ALSO = {'C04': {'R04.1': 'same-named entries of concurrent puts get different names: exclusive '
+                  'creation',
+         'R04.2': 'the payload goes to the name whose .trashinfo was won'},
+ 'C10': {'R10.4': 'a freshly trashed payload must not be purged as an orphan before it can be '
+                  'restored'},
+ 'C13': {'R13.2': 'an entry is offered from its original directory or any ancestor (scope at a '
+                  'component boundary, nothing else)'}}
 
 def enum_members(ctx, cls):
     return sorted(k for k, v in cls.attrs.items() if not k.startswith('_'))
@@ -230,7 +239,7 @@ def check(ctx):
             continue
         for a in flat(term):
             for V, P, j in location_joins(a):
-                opened = [y for y in walk(P) if isinstance(y, Call) and y.fn == 'open']
+                opened = [y for y in walk(P) if isinstance(y, Call) and y.fn in ('open', 'io.open', 'codecs.open')]
                 okv = False
                 for o in opened:
                     for ia in flat(o.args[0]):
